@@ -536,6 +536,11 @@ func TestParallelRace(t *testing.T) {
 			var insts []*inst
 			var solo []outcome
 			var before []uint64
+			// In half of the runs the solo (model) outputs are computed after the
+			// parallel phase: whatever the code under test fills in lazily on the first
+			// sighting of an input (a cache, a table) is then filled in by the parallel
+			// callers themselves.
+			soloAfter := c.Bool("solo.after")
 			for i := 0; i < ninst; i++ {
 				in := pickInstFor(c, false, false)
 				insts = append(insts, in)
@@ -544,7 +549,9 @@ func TestParallelRace(t *testing.T) {
 				} else {
 					before = append(before, 0)
 				}
-				solo = append(solo, soloOutput(c, in))
+				if !soloAfter {
+					solo = append(solo, soloOutput(c, in))
+				}
 			}
 			ntasks := c.Int("ntasks", 2, 8)
 			reps := c.Int("reps", 1, 4)
@@ -585,6 +592,12 @@ func TestParallelRace(t *testing.T) {
 				close(gates[i])
 			}
 			wg.Wait()
+			if soloAfter {
+				c.Probe("solo outputs computed after the parallel phase")
+				for _, in := range insts {
+					solo = append(solo, soloOutput(c, in))
+				}
+			}
 			if purity(c) {
 				for i := range results {
 					for r := range results[i] {
